@@ -7,7 +7,11 @@ prepare = kbridge.prepare_for('C03')    # regenerates Generated/KernelRun03.lean
 from vlib.util import VERIF, REPO
 ASSUMPTIONS = ['"observable trace" = what process bodies and probe callbacks see (env.now, values, exceptions, order)',
                'hash-seed independence is sampled (fresh interpreters with several PYTHONHASHSEED values), not a theorem',
-               'hash-seed scenarios configure schedulers with integer weights (the annotated type); WFQ over string class ids with non-integer weights sums them in set order and is hash-seed dependent on the unchanged tree (findings/demos/C03_wfq_float_weights_hashseed.py), not generated',
+               # b-fixwfq: the restriction to whole weights is lifted for WFQ (repaired in /repo: `fix: WFQ sums the weights of the active classes in table order`)
+               'hash-seed scenarios: WFQ is also configured with weights that are not whole numbers (0.6, 1.1, 0.7 ... over string class ids, family `wfqw` of harness/netfan.py: '
+               'the fixed program of findings/demos/C03_wfq_float_weights_hashseed.py plus 11 drawn ones; their trace is the departures seen by `out` and the lines the scheduler '
+               'itself prints in debug mode - the finish stamp of every arrival - with `element_id` set to a constant because the constructor draws a uuid4); '
+               'the other scheduler tables of the hash-seed scenarios (SP priorities, DRR weights, VC vticks, switch tables) stay integers or floats equal to integers',
                'run(until=event) for an event that fails re-raises its exception after all of its waiters have run (repaired in /repo)']
 SPEC = [(3, 'plan:time'), (3, 'plan:outcome'), (2, 'plan:cond'), (2, 'plan:intr'), (2, 'plan:res'), (2, 'plan:store'), (1, 'untilfail'), (1, 'untilreact'), (2, 'crashplan'), (2, 'untiljoin')]
 
